@@ -1,6 +1,6 @@
 //! C10: the frontend never panics on any query text. Also feeds mutated-but-accepted queries to C11.
 
-use std::{collections::BTreeMap, sync::OnceLock};
+use std::collections::BTreeMap;
 
 use serde_json::json;
 use trustfall_core::{schema::Schema, test_types::TestGraphQLQuery};
@@ -385,8 +385,16 @@ pub struct RepoCorpus {
 }
 
 pub fn repo_corpus() -> &'static RepoCorpus {
-    static C: OnceLock<RepoCorpus> = OnceLock::new();
-    C.get_or_init(|| {
+    // one copy per thread (leaked): a process-wide static would make the whole harness depend on `Schema: Sync`,
+    // which is exactly what C24 checks, so a lost bound must not stop the other checks from building
+    thread_local! {
+        static C: &'static RepoCorpus = Box::leak(Box::new(load_repo_corpus()));
+    }
+    C.with(|c| *c)
+}
+
+fn load_repo_corpus() -> RepoCorpus {
+    {
         let mut schemas = BTreeMap::new();
         let sdir = "/repo/trustfall_core/test_data/schemas";
         for name in ["filesystem", "numbers", "nullables", "recurses", "parameterized_edges"] {
@@ -422,7 +430,7 @@ pub fn repo_corpus() -> &'static RepoCorpus {
             }
         }
         RepoCorpus { schemas, queries }
-    })
+    }
 }
 
 pub fn tokenize(s: &str) -> Vec<String> {
@@ -674,10 +682,10 @@ pub fn c10(ctx: &CheckCtx) -> i32 {
          unwinds. Non-trivial: text the GraphQL parser accepts (so the frontend proper ran); distinct by text hash.",
     );
     report.assume("query nesting depth is bounded (<= 6 levels) so the third-party parser's native recursion cannot overflow the stack");
-    let cases = ctx.cases(60_000, 3_000_000);
+    let cases = ctx.cases(300_000, 3_000_000);
     let res = search(ctx, "c10", cases, 32, 600, c10_case);
     report.absorb(res, &render_hostile);
-    let cases = ctx.cases(20_000, 1_000_000);
+    let cases = ctx.cases(100_000, 1_000_000);
     let res = search(ctx, "c10-bytes", cases, 0, 200, c10_bytes_case);
     report.absorb(res, &|b| json!({"text": bytes_to_text(b)}));
     report.finish()
